@@ -489,7 +489,12 @@ def m_len_utf8(it, recv, args, e, mod, discard):
     return utf8_width(c.v)
 
 
-@method("char_indices", "as_bytes", "split", "trim_end", "find", "repeat", "next_boundary")
+@method("count")
+def m_count(it, recv, args, e, mod, discard):
+    return len(list(it.iterate(recv)))
+
+
+@method("char_indices", "as_bytes", "split", "trim_end", "find", "repeat", "next_boundary", "chars")
 def m_text(it, recv, args, e, mod, discard):
     if it.text is None:
         raise InternalError("text method %s without a text model" % e["method"])
